@@ -1172,7 +1172,8 @@ theorem gen_writeback_target :
     Csvq.Skeleton.publishArgs Csvq.Gen.fxUpdate = ["v", "v"] ∧ Csvq.Skeleton.publishArgs Csvq.Gen.fxDelete = ["v", "v"] ∧
     (["loop(viewsToUpdate){", "restore_header(v)"] <:+: Csvq.Gen.fxUpdate) ∧
     (["loop(viewsToDelete){", "loop(v.RecordSet){"] <:+: Csvq.Gen.fxDelete) ∧
-    (["loop(query.Tables){", "resolve_name"] <:+: Csvq.Gen.fxUpdate) ∧ (["loop(query.Tables){", "resolve_name"] <:+: Csvq.Gen.fxDelete) := by decide
+    (["loop(query.Tables){", "resolve_name"] <:+: Csvq.Gen.fxUpdate) ∧
+    (["loop(query.Tables){", "if{", "return", "}", "resolve_name"] <:+: Csvq.Gen.fxDelete) := by decide
 
 /-- … to the place that belongs to the table's kind — in memory (temporary table AND stdin): the block that declared it
     (`ReplaceTemporaryTable`, never the innermost block); file: the transaction's cache — by the same guard in all seven
